@@ -22,6 +22,21 @@ CLAIMED = {
     ),
 }
 
+CLAIMED["C14"] = dict(
+    category="other",
+    technique="static must-pass-through (MIR, interprocedural through closures) + who-may-write + backward data-dependence provenance + closed state inventory (Rust and JS)",
+    text=("Path-complete structural argument for history-independence of the watch-mode cache, on a crate that cannot even "
+          "run natively: on every normal path of the update export the entry of the updated file is replaced or evicted; the "
+          "cache has exactly two writers and the fetched value is parse_and_bind(read_file_content(name), name); the set of "
+          "process-lifetime state on both sides of the wasm boundary is closed (new static / new field of the cache ADT / new "
+          "module-level JS binding fails the check); host queries reachable from the cached computation and never-invalidated "
+          "JS caches are reported (2 known findings). A per-path static argument is the right level because the property "
+          "quantifies over all edit histories."),
+    note=("Trusted: rustc MIR normal edges (panics out of scope), swc AST of ts-node/*.ts, the reviewed inventory table. "
+          "Histories are not executed; the JS host callbacks are assumed to return current disk state."),
+    design="DESIGN.md section 3, C14",
+)
+
 NOT_APPLICABLE_REASON = {}
 
 
